@@ -69,6 +69,8 @@ pub struct Stats {
     pub distinct_saturated: bool,
     pub steps: u64,
     pub nontrivial: u64,
+    /// executions beyond one per run (e.g. the per-case fault-offset sweep of C04)
+    pub extra_evals: u64,
 }
 
 const DISTINCT_CAP: usize = 3_000_000;
@@ -94,6 +96,7 @@ impl Stats {
             *self.counters.entry(k).or_insert(0) += v;
         }
         self.steps += other.steps;
+        self.extra_evals += other.extra_evals;
         self.nontrivial += other.nontrivial;
         self.distinct_saturated |= other.distinct_saturated;
         for k in other.distinct {
@@ -280,7 +283,7 @@ pub fn search<P: Prop>(p: &P, opts: &Opts) -> Outcome<P::Case> {
 
     let (stats, mut found, nondet) = results.into_inner().unwrap();
     found.sort_by_key(|f| f.run);
-    let evaluations = stats.counters.get("runs").copied().unwrap_or(0);
+    let evaluations = stats.counters.get("runs").copied().unwrap_or(0) + stats.extra_evals;
 
     // a few samples: the first runs of the stream, regenerated (generation is a pure function)
     let mut samples = vec![];
